@@ -7,6 +7,8 @@ from . import _rfc as R
 from . import _jgen as G
 
 LEVEL = "proof"
+# C functions this check's models mirror (source-text fingerprints are recorded in the evidence, see translate/funchash.py)
+MODELLED_FUNCS = {'src/json/iwjson.c': ['_jbl_create_patch', '_jbl_target_apply_patch', '_jbl_node_find', '_jbn_remove_item', '_jbl_patch_node', '_jbl_patch', '_jbl_ptr_array_index']}
 MANIFEST = dict(
     level="proof",
     text=("Lean 4 theorems over an executable model of iowow's JSON Patch (pointer decoding, look-up by cached array index, "
